@@ -393,14 +393,17 @@ def generate(rng, tier, run):
     basenode = res.resolve(layout['base'])
     n_reads = rng.randint(8, 20) if tier == 'quick' else rng.randint(10, 40)
     ops = []
-    ops.append(['set_dir', rng.choice(layout['dirspecs']), rng.random() < 0.9, 'new'])
+    if rng.random() < 0.15:
+        ops.append(['read', rng.choice(['a', 'a.tex', layout['base'] + '/a.tex', '../out/secret']), 'rif'])
+    ops.append(['set_dir', rng.choice(layout['dirspecs']), rng.random() < 0.9,
+                rng.choice(['new', 'new', 'new', 'assign-dir'])])
     nmut = 0
     dirs_for_cwd = sorted(set([layout['cwd'], W, layout['base'], layout['base'] + '/sub', '/sim']))
     for _ in range(n_reads):
         z = rng.random()
         if z < 0.07:
             ops.append(['set_dir', rng.choice(layout['dirspecs']), rng.random() < 0.8,
-                        rng.choice(['new', 'reuse', 'reuse', 'assign', 'new-path'])])
+                        rng.choice(['new', 'reuse', 'reuse', 'assign', 'new-path', 'assign-dir'])])
         elif z < 0.09:
             d = rng.choice(dirs_for_cwd)
             ops.append(['chdir', d])
@@ -546,10 +549,16 @@ def execute(program):
                     import pathlib
                     dirarg = pathlib.PurePosixPath(dirspec)       # os.PathLike directory
                     l2t = RecordingL2T()
-                elif mode == 'new' or l2t is None:
+                elif mode == 'new' or (l2t is None and mode != 'assign-dir'):
                     l2t = RecordingL2T()
                     mode = 'new'
-                if mode == 'assign':
+                if mode == 'assign-dir':
+                    # a fresh converter; only the directory attribute is assigned, strict_input keeps
+                    # its documented default (on)
+                    l2t = RecordingL2T()
+                    l2t.tex_input_directory = dirspec
+                    strict = True
+                elif mode == 'assign':
                     # the documented public attributes, assigned directly
                     l2t.tex_input_directory = dirspec
                     l2t.strict_input = strict
@@ -587,10 +596,27 @@ def execute(program):
                 continue
             if kind != 'read':
                 raise core.HarnessError('unknown op %r' % (op,))
-            if l2t is None:
-                trace.append(['read', 'skipped'])
-                continue
             name, via = op[1], op[2]
+            if l2t is None or dirspec is None:
+                # no input directory configured: nothing may be read, the file system is not touched
+                if l2t is None:
+                    l2t = RecordingL2T()
+                c0 = fs.calls
+                try:
+                    with mount:
+                        t0 = l2t.read_input_file(name) if via == 'rif' else \
+                            l2t.latex_to_text('\\%s{%s}' % (via, name))
+                except simfs.SimUnsupported as e:
+                    raise core.HarnessError("unsupported simulated system call: %s" % e)
+                except Exception as e:
+                    t0 = e
+                stats.inc('op:read-without-directory')
+                if (isinstance(t0, Exception) or MARK_RX.findall(t0 or '') or fs.calls != c0) and via == 'rif':
+                    raise Violation('no-directory-no-access', op_index=opi, name=name, via=via, dirspec=None,
+                                    observed=(repr(t0)[:100] + ', %d simulated system calls' % (fs.calls - c0)),
+                                    expected="'' and no file-system access while no input directory is set")
+                trace.append(['read', name, via, 'no-directory'])
+                continue
             stats.inc('op:read-' + via)
             dirnode = res.resolve(dirspec)
             if dirnode is not None and dirnode.kind != 'd':
